@@ -25,10 +25,13 @@ type FrameSpec struct {
 	Kind     string `json:"kind"` // content kind
 	Seed     uint32 `json:"seed"`
 	Deflated bool   `json:"deflated,omitempty"` // payload = Deflate(content of Len bytes), RSV1 set
+	R1       bool   `json:"rsv1,omitempty"`     // RSV1 set on this frame although the payload is not deflated (e.g. on a continuation)
 }
 
 type Case struct {
-	Mode           string      `json:"mode"` // receive, send-control, readlimit
+	Mode           string      `json:"mode"` // receive, send-control, readlimit, declared
+	DeclMul        int         `json:"declared_multiple,omitempty"`
+	DeclR1         bool        `json:"declared_rsv1,omitempty"`
 	L              int         `json:"limit"`
 	ReceiverClient bool        `json:"receiver_client"`
 	Alloc          string      `json:"alloc"` // tracker, pool, aligned
@@ -151,6 +154,48 @@ func runCaseInner(c Case) vlib.Result {
 		}
 		res.NonTrivial = c.CtlLen >= 124 && c.CtlLen <= 127
 		return res
+	case "declared":
+		// one data frame whose header declares a payload far above the limit, fed in small reads: it
+		// must be refused long before that much was buffered, compressed (RSV1) or not
+		n := c.L*c.DeclMul + 1
+		f := vlib.WSFrame{Fin: true, Op: vlib.OpBin, R1: c.DeclR1, Masked: !c.ReceiverClient, Key: 11, Payload: vlib.GenPayload("pattern", n, 1)}
+		wire := f.Encode()
+		sz := c.CutSize
+		if sz <= 0 {
+			sz = 64
+		}
+		bound := c.L + c.L/8 + 64 + 14 + sz
+		fed := 0
+		var perr error
+		for i := 0; i < len(wire) && perr == nil; i += sz {
+			e := i + sz
+			if e > len(wire) {
+				e = len(wire)
+			}
+			perr = wsc.Parse(append([]byte(nil), wire[i:e]...))
+			fed = e
+			if n, ok := cachedLen(wsc); ok && perr == nil && n > bound {
+				res.Err = fmt.Errorf("a frame declaring %d bytes (limit %d, rsv1=%v) was not refused: %d bytes are buffered after %d bytes were fed", len(f.Payload), c.L, c.DeclR1, n, fed)
+				return res
+			}
+			if perr == nil && fed > bound+sz {
+				res.Err = fmt.Errorf("a frame declaring %d bytes (limit %d, rsv1=%v) is still being accepted after %d bytes were fed", len(f.Payload), c.L, c.DeclR1, fed)
+				return res
+			}
+		}
+		for _, g := range got {
+			if g.len > c.L {
+				res.Err = fmt.Errorf("message of %d bytes delivered although MessageLengthLimit is %d", g.len, c.L)
+				return res
+			}
+		}
+		if perr == nil {
+			res.Err = fmt.Errorf("a frame declaring %d bytes (limit %d, rsv1=%v) was accepted completely", len(f.Payload), c.L, c.DeclR1)
+			return res
+		}
+		res.NonTrivial = true
+		res.Classes = append(res.Classes, fmt.Sprintf("declared-oversize/rsv1=%v", c.DeclR1))
+		return res
 	case "readlimit":
 		// an incomplete frame (declared length far above what is sent) fed in many reads
 		hdr := vlib.WSFrame{Fin: true, Op: vlib.OpBin, Masked: !c.ReceiverClient, Key: 5, Payload: make([]byte, 1)}.Encode()
@@ -217,6 +262,7 @@ func runCaseInner(c Case) vlib.Result {
 			}
 		} else {
 			payload = vlib.GenPayload(fs.Kind, fs.Len, fs.Seed)
+			f.R1 = fs.R1
 		}
 		f.Payload = payload
 		if fs.Op == vlib.OpText || fs.Op == vlib.OpBin {
@@ -268,6 +314,13 @@ func runCaseInner(c Case) vlib.Result {
 	}
 	if open {
 		res.Classes = append(res.Classes, "open:compressed-wire-size>L")
+		return res
+	}
+	if m.Open {
+		// RSV1 on a continuation frame: what the endpoint does with the connection is not asserted
+		// here, only that nothing above the limit was delivered (checked above)
+		res.Classes = append(res.Classes, "open:rsv1-on-continuation")
+		res.NonTrivial = true
 		return res
 	}
 	if openExact {
@@ -356,6 +409,18 @@ func gen(maxBomb int) func(t *rapid.T) Case {
 			c.CtlLen = rapid.SampledFrom([]int{0, 2, 124, 125, 126, 127, 200, 65536}).Draw(t, "ctllen")
 			c.L = 0
 			return c
+		case 2:
+			c.Mode = "declared"
+			if c.L > 65536 {
+				c.L = 65536
+			}
+			c.DeclMul = rapid.SampledFrom([]int{1, 2, 10, 100}).Draw(t, "declmul")
+			c.DeclR1 = rapid.Bool().Draw(t, "declr1")
+			c.CutSize = rapid.SampledFrom([]int{1, 7, 64, 1000, 4096}).Draw(t, "cutsize")
+			if c.L*c.DeclMul/c.CutSize > 20000 {
+				c.CutSize = 4096
+			}
+			return c
 		case 1:
 			c.Mode = "readlimit"
 			c.ReadLimit = rapid.SampledFrom([]int{64, 100, 1000, 4096, 65536}).Draw(t, "readlimit")
@@ -390,6 +455,10 @@ func gen(maxBomb int) func(t *rapid.T) Case {
 				c.Frames = append(c.Frames, FrameSpec{Op: op, Fin: true, Len: around("single"), Kind: k, Seed: seed})
 			case 3, 4: // fragments summing around L
 				total := around("fragtotal")
+				rsv1Cont := rapid.IntRange(0, 3).Draw(t, "rsv1cont") == 0
+				if rsv1Cont {
+					total = c.L + rapid.SampledFrom([]int{1, 2, 200, c.L}).Draw(t, "rsv1over")
+				}
 				n := rapid.IntRange(2, 4).Draw(t, "nfrag")
 				rest := total
 				for j := 0; j < n; j++ {
@@ -402,7 +471,11 @@ func gen(maxBomb int) func(t *rapid.T) Case {
 					if j == 0 {
 						fop = op
 					}
-					c.Frames = append(c.Frames, FrameSpec{Op: fop, Fin: j == n-1, Len: l, Kind: k, Seed: seed + uint32(j)})
+					fsp := FrameSpec{Op: fop, Fin: j == n-1, Len: l, Kind: k, Seed: seed + uint32(j)}
+					if j > 0 && rsv1Cont {
+						fsp.R1 = true // RSV1 on a continuation of an uncompressed message: whatever the endpoint does with it, nothing above the limit may be delivered
+					}
+					c.Frames = append(c.Frames, fsp)
 					if rapid.IntRange(0, 4).Draw(t, "ctl") == 0 {
 						c.Frames = append(c.Frames, FrameSpec{Op: vlib.OpPing, Fin: true, Len: rapid.SampledFrom([]int{0, 5, 125}).Draw(t, "pinglen"), Kind: "ascii"})
 					}
